@@ -88,6 +88,34 @@ func C15(c *Ctx) {
 				}
 			}
 			r.Require(n >= 1, "A7.derived-queues", "rebuilt|"+sec, "", "genesis import rebuilds the "+sec+" queue", "no write on the import route")
+			// converse: every imported order with that status gets its queue entry before the next iteration
+			for _, root := range w.Roots["INITGEN:"+m] {
+				for f := range w.Reachable([]*ssa.Function{root}) {
+					if !strings.Contains(fn(f), "InitGenesis") || ir.ModuleOf(f) != m {
+						continue
+					}
+					isQ := callReaching(c, f, func(e ir.Effect) bool { return e.Kind == "StoreWrite" && e.Section == sec })
+					isPO := callReaching(c, f, func(e ir.Effect) bool { return e.Kind == "StoreWrite" && e.Section == secPO })
+					for _, pw := range findInstrs(f, isPO) {
+						if isQ(pw) {
+							continue
+						}
+						call, ok := pw.(ssa.CallInstruction)
+						if !ok {
+							continue
+						}
+						args := call.Common().Args
+						stored := w.ExprOf(args[len(args)-1])
+						otherStatus := w.EstablishedEdges(f, func(p ir.Pred) bool {
+							return cmpIs(p, "!=", func(x *ir.Expr) bool {
+								return x.Op == "field" && x.Name == "Status" && (x.Args[0].String() == stored.String() || stored.Op == "struct")
+							}, func(y *ir.Expr) bool { return y.Op == "const" && y.Name == status })
+						}, 0)
+						bad := ir.AfterReachesBackEdgeWithoutCut(f, pw, isQ, otherStatus)
+						r.Require(len(bad) == 0, "A7.derived-queues", "every|"+sec, pos(c, pw), "every imported order with Status == "+status+" gets its queue entry (no imported order of that status is skipped)", "the next iteration is reachable for such an order without the queue write")
+					}
+				}
+			}
 		}
 		literalCompleteness(c, m)
 		importFields(c, m)
